@@ -150,6 +150,41 @@ pub fn connections() -> Vec<Conn> {
     let e = Ends { cip: 5, cport: 42000, sip: 15, sport: 443, v6: false };
     let b = hello_bytes("shared-client.example");
     v.push(Conn { name: s("clienthello-sharing-client-endpoint"), pkts: vec![(seg(&e, true, SYN, 1000, &[], Some(1_000)), T0 + 23), (seg(&e, true, ACK | PSH, 1001, &b[..60], Some(1_050)), T0 + 523), (seg(&e, true, ACK | PSH, 1061, &b[60..], Some(1_100)), T0 + 1023)] });
+    // twins that differ in nothing but the IP version: an IPv4 connection and the IPv6 connection between the IPv4-mapped
+    // forms of the same addresses (::ffff:a.b.c.d), same ports, same direction -- a timestamped handshake, a ClientHello
+    // in two segments and an HTTP/1 exchange each
+    for v6 in [false, true] {
+        let fam = if v6 { "mapped-v6" } else { "plain-v4" };
+        let map = |c: Conn| -> Conn {
+            if !v6 {
+                return c;
+            }
+            Conn {
+                name: c.name,
+                pkts: c
+                    .pkts
+                    .into_iter()
+                    .map(|(mut f, t)| {
+                        // the builder wrote 2001::<id>; rewrite both addresses to ::ffff:10.0.0.<id>
+                        for o in [8usize, 24] {
+                            let id = f[o + 15];
+                            f[o..o + 16].copy_from_slice(&[0, 0, 0, 0, 0, 0, 0, 0, 0, 0, 0xff, 0xff, 10, 0, 0, id]);
+                        }
+                        (f, t)
+                    })
+                    .collect(),
+            }
+        };
+        let (tc, tsrv) = if v6 { (640_000u32, 7_700_000u32) } else { (120_000, 2_500_000) };
+        let e = Ends { cip: 31, cport: 46000, sip: 32, sport: 80, v6 };
+        v.push(map(Conn { name: format!("twin-{fam}-tcp-handshake-ts"), pkts: vec![(seg(&e, true, SYN, 1000, &[], Some(tc)), T0 + 31), (seg(&e, false, SYN | ACK, 5000, &[], Some(tsrv)), T0 + 61), (seg(&e, true, ACK, 1001, &[], Some(tc + 100)), T0 + 1031), (seg(&e, false, ACK | PSH, 5001, b"x", Some(tsrv + 2000)), T0 + 2061)] }));
+        let e = Ends { cip: 33, cport: 46001, sip: 34, sport: 443, v6 };
+        let b = hello_bytes(&format!("twin-{fam}.example"));
+        v.push(map(Conn { name: format!("twin-{fam}-clienthello"), pkts: vec![(seg(&e, true, SYN, 1000, &[], None), T0 + 33), (seg(&e, true, ACK | PSH, 1001, &b[..50], None), T0 + 34), (seg(&e, true, ACK | PSH, 1051, &b[50..], None), T0 + 35)] }));
+        let rq = format!("GET /{fam} HTTP/1.1\r\nHost: twin.example\r\nUser-Agent: agent-{fam}\r\n\r\n");
+        let rs = format!("HTTP/1.1 200 OK\r\nServer: srv-{fam}\r\nContent-Length: 0\r\n\r\n");
+        v.push(map(http_conn(&format!("twin-{fam}-http1-exchange"), &Ends { cip: 35, cport: 46002, sip: 36, sport: 80, v6 }, rq.as_bytes(), &[25], rs.as_bytes(), &[12], T0 + 37)));
+    }
     v
 }
 
@@ -395,7 +430,7 @@ pub fn run(thorough: bool) -> Outcome {
     check_successions(&mut pre);
     Outcome {
         report: pre.merge(rep),
-        rule: "20 connections (TCP handshakes with timestamps incl. IPv6 and two clients using the same ephemeral port towards one server endpoint, ClientHello in 1/2/3 segments incl. IPv6, two HTTP/1 exchanges sharing a server, HTTP/2 exchanges: static only / literal with indexing / referencing foreign dynamic entries / size update 0 / state change followed by a decoding error / self reference, garbage after SYN, a TLS flow sharing the HTTP client's endpoint): every unordered pair (thorough: every triple of the 8 shortest) in every order-preserving interleaving on fresh TCP, HTTP, TLS and unified analyzers (capacity 8), each packet's result compared with the isolated run; plus successions on one 4-tuple: 7 HTTP predecessors (complete, closed by FIN, request only, handshake only, unfinished head, binary) x HTTP/1 and HTTP/2 successors with other initial sequence numbers whose SYN is plain, ECN-setup (ECE|CWR), SYN|PSH or SYN|URG, 4 TLS predecessors x a ClientHello successor (plain and ECN-setup SYN), the successor's results compared with its isolated run; distinct = distinct per-trace result vectors".into(),
+        rule: "26 connections (TCP handshakes with timestamps incl. IPv6 and two clients using the same ephemeral port towards one server endpoint, ClientHello in 1/2/3 segments incl. IPv6, two HTTP/1 exchanges sharing a server, HTTP/2 exchanges: static only / literal with indexing / referencing foreign dynamic entries / size update 0 / state change followed by a decoding error / self reference, garbage after SYN, a TLS flow sharing the HTTP client's endpoint, and three pairs of twins that differ only in IP version - IPv4 vs the IPv4-mapped IPv6 form of the same addresses and ports - as timestamped handshake, ClientHello and HTTP/1 exchange): every unordered pair (thorough: every triple of the 8 shortest) in every order-preserving interleaving on fresh TCP, HTTP, TLS and unified analyzers (capacity 8), each packet's result compared with the isolated run; plus successions on one 4-tuple: 7 HTTP predecessors (complete, closed by FIN, request only, handshake only, unfinished head, binary) x HTTP/1 and HTTP/2 successors with other initial sequence numbers whose SYN is plain, ECN-setup (ECE|CWR), SYN|PSH or SYN|URG, 4 TLS predecessors x a ClientHello successor (plain and ECN-setup SYN), the successor's results compared with its isolated run; distinct = distinct per-trace result vectors".into(),
         exhaustive: true,
         bounds: json!({"connections": conns.len(), "groups": groups.len(), "max_group": if thorough {3} else {2}}),
     }
